@@ -189,21 +189,53 @@ theorem target_codeA2 (c : Int) (h0 : 0 ≤ c) (h1 : c ≤ 10000) : target codeA
   repeat' split
   all_goals (simp at *; try omega)
 
-theorem target_codeA1 (c : Int) (h0 : 0 ≤ c) (h1 : c ≤ 10000) :
-    target codeA1 c = band tableA1 c := by
-  simp only [codeA1, Generated.Dcc.tableA1, List.map, Row.ofRaw, target, band, tableA1, List.filter]
+/-- generated fact with two admissible values: `_TABLE_A1` is either the standard's table or the known variant
+(C19-KF2); any other change of the table re-opens this -/
+theorem codeA1_variant : codeA1 = stdA1 ∨ codeA1 = knownA1 := by decide
+
+theorem target_stdA1 (c : Int) (h0 : 0 ≤ c) (h1 : c ≤ 10000) : target stdA1 c = band tableA1 c := by
+  simp only [stdA1, target, band, tableA1, List.filter]
   repeat' split
   all_goals (simp at *; try omega)
+
+theorem target_knownA1 (c : Int) (h0 : 0 ≤ c) (h1 : c ≤ 10000) (hg : c < 6000 ∨ 6500 ≤ c) :
+    target knownA1 c = band tableA1 c := by
+  simp only [knownA1, target, band, tableA1, List.filter]
+  repeat' split
+  all_goals (simp at *; try omega)
+
+/-- inside the C19-KF2 region the known table answers Restrictive where Annex A says Active 3 -/
+theorem target_knownA1_kf (c : Int) (h0 : 6000 ≤ c) (h1 : c < 6500) : target knownA1 c = 4 ∧ band tableA1 c = 3 := by
+  simp only [knownA1, target, band, tableA1, List.filter]
+  constructor
+  · repeat' split
+    all_goals (simp at *; try omega)
+  · repeat' split
+    all_goals (simp at *; try omega)
+
+/-- the inputs on which the band lookup of the code is the Annex A band: everything for Table A.2 and for a repaired
+Table A.1; everything outside [60 %, 65 %) for Table A.1 as it is (C19-KF2) -/
+def lookupOK (a2 : Bool) (c : Int) : Prop := a2 = true ∨ codeA1 = stdA1 ∨ c < 6000 ∨ 6500 ≤ c
+
+theorem target_codeA1 (c : Int) (h0 : 0 ≤ c) (h1 : c ≤ 10000) (hg : codeA1 = stdA1 ∨ c < 6000 ∨ 6500 ≤ c) :
+    target codeA1 c = band tableA1 c := by
+  rcases hg with h | h
+  · rw [h]; exact target_stdA1 c h0 h1
+  · rcases codeA1_variant with e | e
+    · rw [e]; exact target_stdA1 c h0 h1
+    · rw [e]; exact target_knownA1 c h0 h1 h
 
 theorem rm_code (a2 : Bool) : rowsMatchB (codeTable a2) (annex a2) = true := by
   cases a2
   · exact rm_codeA1
   · exact rm_codeA2
 
-theorem target_code (a2 : Bool) (c : Int) (h0 : 0 ≤ c) (h1 : c ≤ 10000) :
+theorem target_code (a2 : Bool) (c : Int) (h0 : 0 ≤ c) (h1 : c ≤ 10000) (hg : lookupOK a2 c) :
     target (codeTable a2) c = band (annex a2) c := by
   cases a2
-  · exact target_codeA1 c h0 h1
+  · rcases hg with h | h
+    · cases h
+    · exact target_codeA1 c h0 h1 h
   · exact target_codeA2 c h0 h1
 
 theorem run_replicate_dist (tbl : Table) (c : Int) (hv : ¬ (c < 0 ∨ 10000 < c)) :
@@ -221,20 +253,18 @@ theorem run_replicate_dist (tbl : Table) (c : Int) (hv : ¬ (c < 0 ∨ 10000 < c
     rw [this, dist_step]
     omega
 
-/-- last edge of the two Annex A tables -/
-def lastEdge (a2 : Bool) : Int := if a2 then 6500 else 6000
-
+/-- both Annex A tables have the same CBR column -/
 theorem band_cases (a2 : Bool) (c : Int) : band (annex a2) c =
-    if c < 3000 then 0 else if c < 4000 then 1 else if c < 5000 then 2 else if c < lastEdge a2 then 3 else 4 := by
-  cases a2 <;> simp only [band, annex, tableA1, tableA2, lastEdge, Bool.false_eq_true, if_false, if_true] <;>
+    if c < 3000 then 0 else if c < 4000 then 1 else if c < 5000 then 2 else if c < 6500 then 3 else 4 := by
+  cases a2 <;> simp only [band, annex, tableA1, tableA2, Bool.false_eq_true, if_false, if_true] <;>
   · by_cases h1 : (3000 : Int) ≤ c <;> by_cases h2 : (4000 : Int) ≤ c <;> by_cases h3 : (5000 : Int) ≤ c <;>
-      by_cases h4 : (6000 : Int) ≤ c <;> by_cases h5 : (6500 : Int) ≤ c <;>
-      simp [List.filter, h1, h2, h3, h4, h5] <;> (repeat' split) <;> omega
+      by_cases h5 : (6500 : Int) ≤ c <;>
+      simp [List.filter, h1, h2, h3, h5] <;> (repeat' split) <;> omega
 
 theorem inBand_iff (a2 : Bool) (c : Int) (h0 : 0 ≤ c) (h1 : c ≤ 10000) (s : Nat) :
     inBand (annex a2) s c ↔ s = band (annex a2) c := by
   rw [band_cases]
-  cases a2 <;> simp only [inBand, lo, hi, annex, tableA1, tableA2, lastEdge, Bool.false_eq_true, if_false, if_true] <;>
+  cases a2 <;> simp only [inBand, lo, hi, annex, tableA1, tableA2, Bool.false_eq_true, if_false, if_true] <;>
   · constructor
     · rintro ⟨hs, hl, hh⟩
       have : s = 0 ∨ s = 1 ∨ s = 2 ∨ s = 3 ∨ s = 4 := by omega
@@ -242,5 +272,17 @@ theorem inBand_iff (a2 : Bool) (c : Int) (h0 : 0 ≤ c) (h1 : c ≤ 10000) (s : 
     · intro hs
       subst hs
       (repeat' split) <;> simp at * <;> omega
+
+/-! ### Spec sanity (Spec against itself; not property clauses) -/
+
+/-- the transcription of Annex A is self-consistent: T_off is the inverse of the packet rate in every row -/
+theorem spec_toff_is_inverse_rate (a2 : Bool) :
+    List.zipWith (· * ·) (annex a2).rates (annex a2).toffs = [1000000, 1000000, 1000000, 1000000, 1000000] := by
+  cases a2 <;> decide
+
+/-- the Annex A bands partition [0,1]: every CBR lies in the band of exactly one state, namely `band` -/
+theorem bands_partition (a2 : Bool) (c : Int) (h0 : 0 ≤ c) (h1 : c ≤ 10000) :
+    inBand (annex a2) (band (annex a2) c) c ∧ ∀ s, inBand (annex a2) s c → s = band (annex a2) c :=
+  ⟨(inBand_iff a2 c h0 h1 _).2 rfl, fun s hs => (inBand_iff a2 c h0 h1 s).1 hs⟩
 
 end FlexModel.Dcc
